@@ -345,6 +345,10 @@ func GenR(rng *Rng, prop string, tier string) *RScript {
 			p.PreTarget = c.Pre && rng.Pct(50)
 			if !p.PreTarget && rng.Pct(30) {
 				p.Late = rng.Range(1, 3)
+				if prop == "C02" && rng.Pct(25) {
+					// the downstream id is not learned within the retry budget: nothing naming the partition may be emitted
+					p.Late = 80
+				}
 			}
 			c.Parts = append(c.Parts, p)
 			l.liveP[p.ID] = true
